@@ -39,7 +39,7 @@ func init() {
 			"position fields the restorer leaves NoPos are outside the statement (it speaks of positions the restorer assigns) and are only counted",
 			"a comment-token inversion that gofmt itself produces when the comment is spliced textually before the token is attributed to go/printer, not to dst",
 		},
-		Required: map[string]int{"configs": 6},
+		Required: map[string]int{"configs": 7},
 	})
 }
 
@@ -253,6 +253,13 @@ func c12Check(c *fw.Ctx, label, cfg string, r *decorator.Restorer, df *dst.File,
 				pairs = append(pairs, posPair{rp, fp, false, name})
 			} else if fp.IsValid() && !rp.IsValid() {
 				c.Observe("left_nopos", name)
+				// positions the dst model has no field or flag for stay unset; any other token of the
+				// printed text must have a position in the restored ast, else it takes no part in the
+				// order the property speaks of (and End() of its node falls short)
+				if !c12Unmodelled[name] {
+					viol("unpositioned-token", "unpositioned-token:"+name, fmt.Sprintf("%s is a token of the printed text (fresh parse: %d) but has no position in the restored ast", name, fp))
+					return len(pairs)
+				}
 			} else if rp.IsValid() && !fp.IsValid() {
 				// the restorer positioned a token that is not in the printed text at all
 				viol("phantom-position", "phantom-position:"+name, fmt.Sprintf("%s has position %d in the restored ast, but a fresh parse of the printed text has no such token", name, rp))
@@ -486,6 +493,10 @@ func isSep(b byte) bool {
 	return b == ' ' || b == '\t' || b == '\n' || b == '(' || b == ')' || b == ',' || b == ';' || b == '{' || b == '}' || b == '[' || b == ']' || b == '.'
 }
 
+// c12Unmodelled: positions for which dst keeps no information (an arrow-less chan type prints no
+// arrow; the implicit semicolon of an empty statement; the range keyword; the file extent).
+var c12Unmodelled = map[string]bool{"ChanType.Arrow": true, "EmptyStmt.Semicolon": true, "File.FileEnd": true, "File.FileStart": true, "RangeStmt.Range": true}
+
 func runC12(c *fw.Ctx) {
 	files := corpus.Sample(c.Rand("files"), c.Pick(160, 4000))
 	var shared *token.FileSet
@@ -508,7 +519,7 @@ func runC12(c *fw.Ctx) {
 		if src == nil || len(src) > 150000 {
 			continue
 		}
-		for _, cfg := range []string{"plain", "dense", "imports", "extras", "imports-pruned"} {
+		for _, cfg := range []string{"plain", "dense", "imports", "extras", "imports-pruned", "cloned"} {
 			id := "file:" + corpus.Rel(p) + "/" + cfg
 			c.Case(id, func() {
 				c.Observe("configs", cfg)
@@ -555,6 +566,10 @@ func runC12(c *fw.Ctx) {
 				if err != nil {
 					c.Count("inconclusive_decorate_error", 1)
 					return
+				}
+				if cfg == "cloned" {
+					// the tree that is restored is a clone of the decorated one
+					df = dst.Clone(df).(*dst.File)
 				}
 				r.Fset = shared
 				r.Extras = cfg == "extras"
